@@ -50,6 +50,7 @@ import (
 	"github.com/RoaringBitmap/roaring"
 	"github.com/blugelabs/bluge"
 	"github.com/blugelabs/bluge/index"
+	"github.com/blugelabs/bluge/index/mergeplan"
 	segment "github.com/blugelabs/bluge_segment_api"
 	iceV1 "github.com/blugelabs/ice"
 	iceV2 "github.com/blugelabs/ice/v2"
@@ -73,7 +74,9 @@ func (h) Rule() string {
 		"yields/sleeps in the segment plugin, the event callback and between calls; a seeded share of the calls is held in " +
 		"prepareSegment's first DocsMatchingTerms until another batch was introduced; plus deterministic scenarios (a set-up batch, " +
 		"then 2 or 3 conflicting calls that all read the set-up root and are introduced in a forced order: every release order of " +
-		"every generated workload); a case is non-trivial when at least two calls overlap in time, distinct by (configuration, " +
+		"every generated workload) and merge-window scenarios (set-up batches of growing size so that the older segment is the " +
+		"smaller one, the merger parked at EventKindMergeTaskIntroductionStart with its file merge of them written, 1–3 client " +
+		"goroutines deleting/updating documents of the merged segments, release, readers); a case is non-trivial when at least two calls overlap in time, distinct by (configuration, " +
 		"workload, recorded introduction order)"
 }
 
@@ -286,9 +289,42 @@ type run struct {
 	waiting    atomic.Int64 // of those, held in the gate
 	gatePct    int
 
+	// merge-window scenario: the merger is parked at EventKindMergeTaskIntroductionStart (merged segment written,
+	// merge not yet handed to the introducer) while conflicting calls are introduced
+	mw        bool
+	parkArmed atomic.Bool
+	parkHit   chan struct{}
+	parkGo    chan struct{}
+	parkOnce  sync.Once
+	goOnce    sync.Once
+	tPark     atomic.Int64
+	tRelease  int64
+
 	calls []*callRec
 	obs   []*obsRec
 	obsMu sync.Mutex
+}
+
+// called on the merger goroutine (EventCallback)
+func (rn *run) park() {
+	if !rn.parkArmed.Load() {
+		return
+	}
+	first := false
+	rn.parkOnce.Do(func() { first = true })
+	if !first {
+		return
+	}
+	rn.tPark.Store(stamp())
+	close(rn.parkHit)
+	select {
+	case <-rn.parkGo:
+	case <-time.After(8 * time.Second): // never hold the writer for good
+	}
+}
+
+func (rn *run) releasePark() {
+	rn.goOnce.Do(func() { close(rn.parkGo) })
 }
 
 var cur *run
@@ -534,6 +570,8 @@ func closeCase() {
 	if cur == nil {
 		return
 	}
+	cur.parkArmed.Store(false)
+	cur.releasePark()
 	cur.mu.Lock()
 	cur.recording = false
 	held := cur.held
@@ -590,7 +628,8 @@ func openCase(line string, work string) error {
 		cfg = bluge.InMemoryOnlyConfig()
 	}
 	rn := &run{byGo: map[uint64]*callRec{}, held: map[segment.Segment]bool{}, recording: true,
-		pt: &perturber{seed: seed, on: true}, gatePct: kv(f, "gate", 0)}
+		pt: &perturber{seed: seed, on: true}, gatePct: kv(f, "gate", 0),
+		mw: kv(f, "mw", 0) == 1, parkHit: make(chan struct{}), parkGo: make(chan struct{})}
 	for _, x := range f {
 		if strings.HasPrefix(x, "order=") {
 			for _, c := range strings.Split(x[6:], ",") {
@@ -618,8 +657,24 @@ func openCase(line string, work string) error {
 		ic.MergePlanOptions.SegmentsPerMergeTask = 2
 		ic.MergePlanOptions.TierGrowth = 2.0
 	}
+	if rn.mw {
+		// every segment is persisted on its own (no in-memory merge), and the merger merges as soon as two persisted
+		// segments exist: the merge in the window is a FILE merge of whole batches
+		ic.MinSegmentsForInMemoryMerge = 1 << 30
+		ic.MergePlanOptions = mergeplan.Options{
+			MaxSegmentsPerTier: 1, MaxSegmentSize: 5000000, TierGrowth: 10, SegmentsPerMergeTask: 10,
+			FloorSegmentSize: 1, ReclaimDeletesWeight: 2,
+			CalcBudget: func(int64, int64, *mergeplan.Options) int { return 1 },
+		}
+		rn.parkArmed.Store(true)
+	}
 	ic.AsyncError = func(err error) {}
-	ic.EventCallback = func(e index.Event) { rn.pt.yield(uint64(10 + e.Kind)) }
+	ic.EventCallback = func(e index.Event) {
+		if rn.mw && e.Kind == index.EventKindMergeTaskIntroductionStart {
+			rn.park()
+		}
+		rn.pt.yield(uint64(10 + e.Kind))
+	}
 	ic = wrapPlugin(ic, ver, rn)
 	cfg = cfg.VerifWithIndexConfig(ic)
 	rn.bcfg = cfg
@@ -691,6 +746,31 @@ func runCase(out func(string, string), st sink) {
 		}
 	}
 	rn.orderBase = rn.introSwaps.Load()
+	parked := false
+	t0mw := time.Now()
+	if rn.mw {
+		// bounded wait for the merger; it plans lazily (woken by the persister), so an empty batch — a new epoch to
+		// persist — nudges it. No merge within the bound: the case runs as an ordinary one.
+		for try := 0; try < 6 && !parked; try++ {
+			select {
+			case <-rn.parkHit:
+				parked = true
+			case <-time.After(250 * time.Millisecond):
+				if try < 5 {
+					cr := &callRec{c: len(rn.calls) + 1, wid: 0, ops: "-"}
+					rn.calls = append(rn.calls, cr)
+					cr.tInv = stamp()
+					cr.err = rn.w.Batch(index.NewBatch())
+					cr.tRet = stamp()
+					st.Count("merge-window:nudges")
+				}
+			}
+		}
+		if !parked {
+			rn.parkArmed.Store(false)
+		}
+		st.CountN("merge-window:ms-waiting-for-the-merger", int(time.Since(t0mw).Milliseconds()))
+	}
 	for _, w := range ws {
 		if w.wid == 0 {
 			continue
@@ -759,6 +839,33 @@ func runCase(out func(string, string), st sink) {
 	}
 	close(startCh)
 	wg.Wait()
+	mergeSeen := false
+	if rn.mw {
+		// the window calls have returned (they were introduced while the merger stood still): let the merge in, wait
+		// (bounded) for its root swap, then look again
+		rn.tRelease = stamp()
+		rn.parkArmed.Store(false)
+		rn.releasePark()
+		if parked {
+			tp := rn.tPark.Load()
+			for i := 0; i < 3000 && !mergeSeen; i++ {
+				rn.mu.Lock()
+				for _, r := range rn.roots {
+					if r.creator == "introduceMerge" && r.t > tp {
+						mergeSeen = true
+					}
+				}
+				rn.mu.Unlock()
+				if !mergeSeen {
+					time.Sleep(time.Millisecond)
+				}
+			}
+			for i := 0; i < 2; i++ {
+				o := rn.observe(nobs + 1 + i)
+				rn.obs = append(rn.obs, o)
+			}
+		}
+	}
 
 	// every call that returned without error has been introduced; give a broken writer 500 ms to catch up
 	okCalls := 0
@@ -896,6 +1003,9 @@ func runCase(out func(string, string), st sink) {
 			}
 		}
 	}
+	if rn.mw {
+		rn.mwStats(st, roots, cache, parked, mergeSeen)
+	}
 	if rn.order != nil {
 		var want []string
 		for _, c := range rn.order {
@@ -918,6 +1028,137 @@ func runCase(out func(string, string), st sink) {
 	st.CountN("reader-observations", len(rn.obs)+1)
 	st.CountN("roots-recorded", len(roots))
 	st.Case(curCfg+" "+strings.Join(curScript, " / ")+" => "+strings.Join(order, ","), overlap)
+}
+
+// what the merge-window scenario reached (counters become evidence and REQUIRED_BRANCHES)
+func (rn *run) mwStats(st sink, roots []*rootRec, cache map[segment.Segment]*segDocs, parked, mergeSeen bool) {
+	if !parked {
+		st.Count("merge-window:skipped-no-merge-reached-the-park")
+		return
+	}
+	if !mergeSeen {
+		st.Count("merge-window:skipped-merge-not-introduced-in-time")
+		return
+	}
+	tp := rn.tPark.Load()
+	var atPark, before, merged *rootRec
+	for i, r := range roots {
+		if r.t < tp {
+			atPark = r
+		}
+		if merged == nil && r.creator == "introduceMerge" && r.t > tp && i > 0 {
+			merged, before = r, roots[i-1]
+		}
+	}
+	if atPark == nil || merged == nil {
+		st.Count("merge-window:skipped-roots-not-recorded")
+		return
+	}
+	st.Count("merge-window:file-merge-held-and-released")
+	now := map[uint64]bool{}
+	for _, s := range merged.segs {
+		now[s.sid] = true
+	}
+	type gs struct {
+		sid  uint64
+		live int
+		ids  map[int]bool
+	}
+	var gone []gs
+	for _, s := range before.segs {
+		if now[s.sid] {
+			continue
+		}
+		// the segment as the merger saw it: in the root that stood when the merger was parked
+		for _, p := range atPark.segs {
+			if p.sid != s.sid || cache[p.seg] == nil {
+				continue
+			}
+			del := map[uint32]bool{}
+			for _, d := range p.deleted {
+				del[d] = true
+			}
+			g := gs{sid: p.sid, ids: map[int]bool{}}
+			for j, d := range cache[p.seg].docs {
+				if !del[uint32(j)] {
+					g.live++
+					g.ids[d.id] = true
+				}
+			}
+			gone = append(gone, g)
+		}
+	}
+	st.Count(fmt.Sprintf("merge-window:segments-merged:%d", len(gone)))
+	if len(gone) < 2 {
+		return
+	}
+	bySize := append([]gs(nil), gone...)
+	sort.SliceStable(bySize, func(i, j int) bool { return bySize[i].live > bySize[j].live })
+	byID := append([]gs(nil), gone...)
+	sort.Slice(byID, func(i, j int) bool { return byID[i].sid < byID[j].sid })
+	differs := false
+	for i := range bySize {
+		if bySize[i].sid != byID[i].sid {
+			differs = true
+		}
+	}
+	if differs {
+		st.Count("merge-window:size-order-differs-from-id-order")
+	}
+	// a window call that names a document of a merged segment and was introduced between park and merge swap
+	slotT := map[int]int64{}
+	known := map[uint64]bool{}
+	for _, r := range roots {
+		if r.creator == "introduceSegment" {
+			for _, s := range r.segs {
+				if !known[s.sid] && cache[s.seg] != nil && len(cache[s.seg].calls) > 0 {
+					slotT[cache[s.seg].calls[0]] = r.t
+				}
+			}
+		}
+		for _, s := range r.segs {
+			known[s.sid] = true
+		}
+	}
+	conflicts := 0
+	for _, cr := range rn.calls {
+		if cr.wid == 0 || cr.err != nil {
+			continue
+		}
+		t, seen := slotT[cr.c]
+		if !seen {
+			// a batch without documents leaves no segment: its introduction lies inside its call
+			if cr.tInv > tp && cr.tRet < merged.t {
+				t, seen = cr.tInv, true
+			}
+		}
+		if !seen || t < tp || t > merged.t {
+			continue
+		}
+		hit := false
+		for _, op := range strings.Fields(cr.ops) {
+			p := strings.Split(op, ":")
+			if len(p) < 2 || p[0] == "ins" {
+				continue
+			}
+			id, _ := strconv.Atoi(p[1])
+			for _, g := range gone {
+				if g.ids[id] {
+					hit = true
+				}
+			}
+		}
+		if hit {
+			conflicts++
+		}
+	}
+	if conflicts > 0 {
+		st.Count("merge-window:conflicting-call-during-file-merge")
+		st.CountN("merge-window:conflicting-calls", conflicts)
+		if differs {
+			st.Count("merge-window:conflict-and-order-differs")
+		}
+	}
 }
 
 func (rn *run) observe(n int) *obsRec {
@@ -1202,7 +1443,67 @@ func genForced(r *hlib.Rand, nwork int, cfgs []string, emit func(string)) {
 	}
 }
 
+// merge-window scenarios: set-up batches of growing size (the OLDER segment is the SMALLER one, so the planner's
+// roster — sorted by live size — is not in segment-id order), the merger parked once its file merge of those segments
+// is written, 1–3 client goroutines whose calls delete/update documents of the merged segments, release, readers
+func genMergeWindow(r *hlib.Rand, n int, emit func(string)) {
+	cfgs := []string{"mem-v1-unsafe", "mem-v1-safe", "fs-v1-unsafe", "fs-v1-safe"}
+	for d := 0; d < n; d++ {
+		nseg := 2
+		if r.Chance(30) {
+			nseg = 3
+		}
+		body, id := 0, 0
+		var setup []string
+		var segIDs [][]int
+		size := r.Range(3, 4)
+		for sg := 0; sg < nseg; sg++ {
+			var ops []string
+			var ids []int
+			for i := 0; i < size; i++ {
+				id++
+				body++
+				ops = append(ops, fmt.Sprintf("upd:%d:%d", id, body))
+				ids = append(ids, id)
+			}
+			setup = append(setup, strings.Join(ops, " "))
+			segIDs = append(segIDs, ids)
+			size += r.Range(2, 3)
+		}
+		emit(fmt.Sprintf("case %s k=%d gmp=%d sd=%d gate=0 mw=1", cfgs[d%len(cfgs)], id, []int{2, 4, 8}[d%3], r.Intn(1<<30)))
+		emit("w 0 " + strings.Join(setup, " | "))
+		nw := r.Range(1, 3)
+		for w := 1; w <= nw; w++ {
+			// the first writer always hits the oldest (smallest) segment
+			sg := r.Intn(2)
+			if w == 1 {
+				sg = 0
+			}
+			ids := segIDs[sg]
+			m := r.Range(1, 2)
+			first := r.Intn(len(ids))
+			var ops []string
+			for i := 0; i < m && i < len(ids); i++ {
+				x := ids[(first+i)%len(ids)]
+				if r.Chance(60) {
+					ops = append(ops, fmt.Sprintf("del:%d", x))
+				} else {
+					body++
+					ops = append(ops, fmt.Sprintf("upd:%d:%d", x, body))
+				}
+			}
+			emit(fmt.Sprintf("w %d %s", w, strings.Join(ops, " ")))
+		}
+		emit(fmt.Sprintf("r 1 %d", r.Range(2, 4)))
+		emit("go")
+		emit("end")
+	}
+}
+
 func (h) Gen(r *hlib.Rand, tier string, scale int, emit func(string)) {
+	// hlib.NewRand(seed) starts splitmix at seed*gamma+c, so the stream of seed k+1 is the stream of seed k shifted
+	// by one draw: re-seed from a mixed output so that different seeds give unrelated scripts
+	r = hlib.NewRand(r.U64() ^ 0xC05)
 	ncases := 400 * scale
 	nforced := 12 * scale // workloads; each with all 2 or 6 release orders
 	if tier == "thorough" {
@@ -1211,6 +1512,11 @@ func (h) Gen(r *hlib.Rand, tier string, scale int, emit func(string)) {
 	}
 	cfgs := []string{"mem-v1-unsafe", "mem-v1-safe", "fs-v1-unsafe", "fs-v1-safe", "mem-v2-unsafe", "mem-v1-unsafe", "fs-v2-unsafe", "mem-v2-safe"}
 	genForced(r, nforced, cfgs, emit)
+	nmw := 24 * scale
+	if tier == "thorough" {
+		nmw = 600 * scale
+	}
+	genMergeWindow(r, nmw, emit)
 	for c := 0; c < ncases; c++ {
 		cfg := cfgs[c%len(cfgs)]
 		k := r.Range(2, 4)
